@@ -71,6 +71,11 @@ def check_handler(ix, rep, cls, f, slot, rule='R-UNITFLOW'):
                 k = raw_kind(v)
                 if k:
                     raw_names[st.targets[0].id] = k
+            if len(st.targets) == 1 and isinstance(st.targets[0], ast.Tuple) and isinstance(v, ast.Tuple) and len(v.elts) == len(st.targets[0].elts):
+                for t, e in zip(st.targets[0].elts, v.elts):
+                    k = raw_kind(e)
+                    if k and isinstance(t, ast.Name):
+                        raw_names[t.id] = k
     # sinks
     for n in ast.walk(f.node):
         if isinstance(n, ast.Call) and isinstance(n.func, ast.Name):
